@@ -157,9 +157,12 @@ example : Witness.D1.c0 = Witness.D1.s0.chainSet := by decide
   itself —, by CreateValidator, RemovePending, UpdateStakingParams; the EndBlocker starts the unbonding of every `Gone`
   record and deletes the matured `Unb` ones; no zero-power entry may shadow a live validator's (no D6, `noShadow`). -/
 
-/-- **C02 and C04 for every quiet history, removals included** (`QuietHistory2`, decidable form `quietRun2B` evaluated
-    by the driver as `QUIET2` lines): from every well-formed genesis, any number of blocks in which x/slashing's
-    BeginBlocker punishes nobody, no evidence arrives, and every transaction either leaves the state unchanged or is a
+/-- **C02 and C04 for every quiet history, removals and punishments included** (`QuietHistory2`, decidable form
+    `quietRun2B` evaluated by the driver as `QUIET2` lines): from every well-formed genesis, any number of blocks in which
+    x/slashing's and x/evidence's BeginBlockers punish nobody or jail live validators that were not re-weighted in the
+    previous block (the decidable shape `punShapeB` of their result; the jailed validators leave the set in that block's
+    EndBlocker, stay queued for the unbonding period and remain as unbonded records), x/gov executes no proposal, and
+    every transaction either leaves the state unchanged or is a
     CreateValidator, a RemovePending, a valid UpdateStakingParams, the admin's SetPower (admitting a pending applicant,
     or re-weighting a live validator without D1/D3), or a RemoveValidator — by the admin or by the operator itself —
     of a live validator not re-weighted in this block whose index entry sits at its current power (no D2); with the
